@@ -93,6 +93,49 @@ func TestVerifC01Core(t *testing.T) {
 			rec.sample("fragment-limit", 1, scenarioBrief(&sc))
 		}
 
+		// ---- part 1c: the application raises the MTU in mid-stream ------------------
+		// Stream mode, a backlog cut for the old MSS still queued, then small
+		// writes that fill the tail segment exactly now and then.
+		for q := 0; q < env.pickN(48, 960); q++ {
+			idx := caseIdx
+			caseIdx++
+			if !env.mine(idx) {
+				continue
+			}
+			rng := rec.seed(uint64(idx), 12)
+			sc := genCoreScenario(rng, idx, "mtu-raise-in-stream")
+			sc.CfgA.Stream, sc.CfgB.Stream = true, true
+			sc.CfgA.Mtu = pick(rng, []int{60, 100, 200})
+			sc.CfgA.SndWnd, sc.CfgB.RcvWnd = 64, 64
+			sc.CfgA.NC = 0 // the congestion window keeps most of the backlog in the send queue
+			sc.Net = netProfile{Name: "slow-clean", DelayMin: rng.between(50, 300), HealAt: 1}
+			sc.Net.DelayMax = sc.Net.DelayMin
+			sc.AppB.TotalBytes = 0
+			sc.AppA.Raw = rng.chance(0.5)
+			oldMss := sc.CfgA.mss()
+			sc.AppA.MtuRaiseAfter = rng.between(3, 10)
+			sc.AppA.MtuRaiseTo = rng.between(sc.CfgA.Mtu+20, 600)
+			sc.AppA.Writes = nil
+			for i := 0; i < sc.AppA.MtuRaiseAfter; i++ {
+				sc.AppA.Writes = append(sc.AppA.Writes, appWrite{0, rng.between(oldMss, 3*oldMss)})
+			}
+			for i := 0; i < rng.between(300, 1200); i++ {
+				sc.AppA.Writes = append(sc.AppA.Writes, appWrite{0, rng.between(1, 4)})
+			}
+			rec.beginCase(sc)
+			rec.guard(sc, func() {
+				res := runCoreScenario(rec, &sc, rng, nil)
+				res.tally(rec)
+				rec.eval(1)
+				rec.count("mtu_raise_in_stream_cases", 1)
+				if !res.completed {
+					rec.violation("C02 transfer did not complete within the virtual-time limit", res.sim.progressSummary(), sc)
+				}
+				rec.nontrivial(hashAny(sc))
+			})
+			rec.sample("mtu-raise-in-stream", 1, scenarioBrief(&sc))
+		}
+
 		// ---- part 2: refused Send must leave nothing queued ---------------------
 		for q := 0; q < env.pickN(32, 320); q++ {
 			idx := caseIdx
